@@ -459,6 +459,8 @@ def run(ctx) -> None:
         r = core.returns(f2)
         ok = len(r) == 1 and nun(r[0].value) == "pendulum.format_diff(diff, is_now, absolute, locale)" and "is_now = other is None" in [nun(s) for s in core.body_no_doc(f2)]
         ctx.ob("FORWARD", f"{cls}.diff_for_humans", ok, f"{[nun(x.value) for x in r]}; is_now must mean `other is None`", mm.loc(f2))
+    from . import C09
+    C09._digits(ctx)        # the counts put into the phrases for a plain Duration (Time differences, in_words) are its mixed-radix digits
     ctx.expect_min("KEY-CLOSURE", 800)
     ctx.expect_min("PLACEHOLDERS", 800)
     ctx.expect_min("DIRECTION", 40)
